@@ -95,8 +95,16 @@ def main(argv=None):
         if args.replay:
             return do_replay(args, engine, lanes, prop)
         return do_check(args, engine, lanes, prop, master_seed, t_start, ctx)
+    except Exception:
+        import traceback
+
+        log("HARNESS-ERROR " + traceback.format_exc()[-3000:])
+        return 2
     finally:
-        lanes.close()
+        try:
+            lanes.close()
+        except Exception:
+            pass
 
 
 # ----------------------------------------------------------------------------
